@@ -45,11 +45,11 @@ enum { OP_FREE = 0, OP_DUP = 1, OP_READ = 2 };
 static const char *const op_name[] = { "free", "dup", "read" };
 
 enum { CL_FREE_OVERLAP, CL_DUP_FREE_OVERLAP, CL_LAST_TWO_DIFFERENT, CL_3THREADS, CL_SWITCH_IN_OP, CL_POOL0, CL_POOLN,
-       CL_POL_TAPE, CL_POL_PCT, CL_POL_PREFIX, CL_DUP_DONE, CL_READ_DONE, CL_PREEMPT, CL_CAS_RETRY, CL_FAILED_ALLOC };
+       CL_POL_TAPE, CL_POL_PCT, CL_POL_PREFIX, CL_DUP_DONE, CL_READ_DONE, CL_PREEMPT, CL_CAS_RETRY, CL_FAILED_ALLOC, CL_FAILED_STRUCT };
 static const char *const class_names[] = {
     "two_frees_in_flight_together", "dup_in_flight_with_free", "last_two_decrements_by_different_threads", "three_threads",
     "context_switch_inside_operation", "pool_depth_0", "pool_depth_positive", "policy_tape", "policy_pct", "policy_prefix",
-    "dup_executed", "read_executed", "preempted", "pool_cas_retry", "allocation_failures_before_the_area", NULL };
+    "dup_executed", "read_executed", "preempted", "pool_cas_retry", "allocation_failures_before_the_area", "structure_allocation_refused_before_the_area", NULL };
 
 struct prog {
     int nthreads;
@@ -58,6 +58,8 @@ struct prog {
     int nops[MAXT];
     uint8_t ops[MAXT][MAXOPS];
     int failed_allocs;          /* allocations that fail (umem exhausted) before the shared area is made: 0-2 (last: the templates use positional initialisers) */
+    int failed_struct;          /* a refused allocation of a buffer STRUCTURE before the shared area is made (engine/faultmalloc.h):
+                                 * 1 = in ubuf_block_alloc, 2 = for the second segment while a two-segment block is duplicated */
 };
 
 struct wrap_mgr { struct urefcount rc; struct umem_mgr mgr; struct umem_mgr *inner; };
@@ -70,6 +72,7 @@ static struct {
     int nh[MAXT];
     int outstanding;
     int area_allocs, area_frees;
+    bool prelude; int prelude_allocs, prelude_frees;     /* areas of the buffers made and freed before the shared area exists */
     int in_free[MAXT], in_dup[MAXT];
     bool free_overlap, dup_free_overlap, cas_retry;
     int dec_thread[2];
@@ -92,6 +95,7 @@ static bool wrap_alloc(struct umem_mgr *mgr, struct umem *umem, size_t size)
     struct wrap_mgr *w = container_of(mgr, struct wrap_mgr, mgr);
     if (!w->inner->umem_alloc(w->inner, umem, size)) return false;
     umem->mgr = mgr;
+    if (cx.prelude) { cx.prelude_allocs++; return true; }
     cx.area_allocs++;
     return true;
 }
@@ -108,6 +112,7 @@ static bool wrap_realloc(struct umem *umem, size_t size)
 static void wrap_free(struct umem *umem)
 {
     struct wrap_mgr *w = container_of(umem->mgr, struct wrap_mgr, mgr);
+    if (cx.prelude) { cx.prelude_frees++; umem->mgr = w->inner; w->inner->umem_free(umem); return; }
     cx.area_frees++;
     if (cx.area_frees > 1)
         fail_inside("C09/area/freed-twice", "the shared area was returned to its allocator %d times", cx.area_frees);
@@ -249,13 +254,47 @@ static int run_case(const struct prog *prog, struct vs_config *cfg, struct vp_re
         if (f != NULL) { ubuf_free(f); }    /* (the failure was not reached: nothing to say) */
         rep->classes |= 1u << CL_FAILED_ALLOC;
     }
+#ifdef VP_FAULTMALLOC_H
+    cx.prelude = true;
+    /* the same for a refused allocation of a structure: whatever the failed call had taken (a reference on the manager, on a
+     * memory area) is given back exactly once -- judged by the counts below and by the destructor of the manager at the end */
+    if (inner && cx.mgr && p->failed_struct == 1) {
+        vp_fault_arm(1);
+        struct ubuf *f = ubuf_block_alloc(cx.mgr, AREA);
+        vp_fault_disarm();
+        if (f != NULL) ubuf_free(f);
+        rep->classes |= 1u << CL_FAILED_STRUCT;
+    } else if (inner && cx.mgr && p->failed_struct == 2) {
+        struct ubuf *a = ubuf_block_alloc(cx.mgr, AREA), *b = ubuf_block_alloc(cx.mgr, AREA);
+        if (a && b && ubase_check(ubuf_block_append(a, b))) {
+            b = NULL;
+            vp_fault_arm(2);            /* the structure of the head is allocated, the one of the second segment is not */
+            struct ubuf *d = ubuf_dup(a);
+            vp_fault_disarm();
+            if (d != NULL) ubuf_free(d);
+            rep->classes |= 1u << CL_FAILED_STRUCT;
+        }
+        if (a) ubuf_free(a);
+        if (b) ubuf_free(b);
+    }
+    cx.prelude = false;
+    if (p->failed_struct && inner) {
+        struct umem_count_stats *ps = umem_count_stats(inner);
+        if (cx.prelude_frees != cx.prelude_allocs || ps->bad_free || ps->live) {
+            __lsan_enable(); vs_end();
+            return vp_fail(rep, "C09/area/count-after-failed-allocation", "a call failed because the allocation of a buffer structure was refused; afterwards, with every buffer freed, "
+                           "%d area(s) were allocated and %d returned (%lu unknown frees, %ld still allocated): the failed call gave back a reference it had not taken, or kept one",
+                           cx.prelude_allocs, cx.prelude_frees, ps->bad_free, ps->live);
+        }
+    }
+#endif
     struct ubuf *first = inner && cx.mgr ? ubuf_block_alloc(cx.mgr, AREA) : NULL;
     if (first == NULL) { __lsan_enable(); vs_end(); return vp_internal(rep, "fixture allocation failed"); }
     {
         uint8_t *w; int size = -1;
         if (!ubase_check(ubuf_block_write(first, 0, &size, &w)) || size != AREA) {
             __lsan_enable(); vs_end();
-            if (p->failed_allocs)   /* the only holder of a brand-new area is refused a writable mapping: the count of the area is off */
+            if (p->failed_allocs || p->failed_struct)   /* the only holder of a brand-new area is refused a writable mapping: the count of the area is off */
                 return vp_fail(rep, "C09/area/count-after-failed-allocation", "after %d allocation(s) failed for lack of memory, the next buffer allocated -- sole holder of its area -- is refused a writable mapping: the holder count of the recycled structure is wrong", p->failed_allocs);
             return vp_internal(rep, "ubuf_block_write");
         }
@@ -323,6 +362,8 @@ static int run_case(const struct prog *prog, struct vs_config *cfg, struct vp_re
             ret = vp_fail(rep, "C09/area/unknown-free", "%lu free(s) of an area the allocator does not know (double free)", s->bad_free);
         else if (s->live != 0)
             ret = vp_fail(rep, "C09/area/never-freed", "%ld area(s) still allocated after every handle was freed", s->live);
+        else if (!urefcount_single(&cx.w.rc))
+            ret = vp_fail(rep, "C09/manager/never-destroyed", "every buffer was freed and the buffer manager released by its creator, yet it still holds its memory manager: the manager's destructor never ran (a reference on the manager was taken and not given back)");
         umem_mgr_release(inner);
     }
     __lsan_enable();
@@ -339,6 +380,7 @@ static void decode_prog(struct tape *t, struct prog *p)
     uint8_t b0 = tp_u8(t);
     p->nthreads = 2 + b0 % 2;
     p->failed_allocs = (b0 >> 1) % 4 == 3 ? 1 + ((b0 >> 3) & 1) : 0;
+    p->failed_struct = ((b0 >> 1) % 4 == 2 && (b0 & 0x10)) ? 1 + ((b0 >> 3) & 1) : 0;
     uint8_t pc = tp_u8(t) % 5;
     p->ubuf_pool = pool_cfg[pc][0];
     p->shared_pool = pool_cfg[pc][1];
